@@ -64,8 +64,8 @@ func (r *parkReader) Read(p []byte) (int, error) {
 
 func c15Method(i int) string { return []string{"GET", "POST", "PUT", "DELETE"}[i%4] }
 
-func caller(tr vegeta.Targeter) {
-	v, _ := simrt.Park(kCallIdle, 0, -1, 0, 0, nil)
+func caller(tr vegeta.Targeter, idx int) {
+	v, _ := simrt.Park(kCallIdle, 0, -1, int64(idx), 0, nil)
 	for v != relQuit {
 		var tg vegeta.Target
 		err := tr(&tg)
@@ -157,7 +157,7 @@ func runTargeters(tt *testing.T, tape *simrt.Tape, keep bool) (out simrt.Outcome
 		sample = map[string]any{"targeter": kind, "targets": ntargets, "callers": ncallers, "calls": ncalls, "armed_breakpoints": len(arms), "source_chunk": rd.chunk}
 		w.Activate()
 		for i := 0; i < ncallers; i++ {
-			go caller(tr)
+			go caller(tr, i)
 		}
 		var calls []*c15Call
 		cur := map[int]*c15Call{} // actor -> call in progress
